@@ -181,6 +181,8 @@ type Host struct {
 	MaxTop            int
 	TrackLimits       bool
 	NilDerefNormalize bool
+	// ExtraStep, when set, is called at every instruction boundary after the harness's own bookkeeping (scheduler pre-emption point).
+	ExtraStep func(L *lua.LState)
 }
 
 // Options for NewHost.
@@ -263,6 +265,9 @@ func (h *Host) onStep(L *lua.LState) {
 	if h.MaxSteps > 0 && h.Steps > h.MaxSteps {
 		h.Runaway = true
 		panic(runawayPanic{})
+	}
+	if h.ExtraStep != nil {
+		h.ExtraStep(L)
 	}
 	if !h.Fired && h.Steps == h.At {
 		switch h.Kind {
